@@ -38,7 +38,7 @@ def with_want(scens, want):
 
 
 def fam_general(rng, tier):
-    return (fam_ss(rng, tier) + gen.fam_sizes(rng, tier) + gen.fam_boundaries(rng) + gen.fam_fixed(rng, n(tier, 60, 400)) + gen.fam_fixed_counts(rng, tier) + gen.fam_stream(rng, n(tier, 150, 1500)) + gen.fam_garbage(rng, n(tier, 80, 600)) +
+    return (fam_ss(rng, tier) + gen.fam_redefine_in_packet(rng, n(tier, 60, 500)) + gen.fam_sizes(rng, tier) + gen.fam_boundaries(rng) + gen.fam_fixed(rng, n(tier, 60, 400)) + gen.fam_fixed_counts(rng, tier) + gen.fam_stream(rng, n(tier, 150, 1500)) + gen.fam_garbage(rng, n(tier, 80, 600)) +
             gen.fam_orphan(rng, n(tier, 60, 500)) + gen.fam_allowed_mix(rng, n(tier, 80, 600)))
 
 
@@ -55,21 +55,21 @@ def fam_ss(rng, tier, protos=(9, 10), want=None):
 
 
 def fam_v9(rng, tier):
-    return fam_ss(rng, tier, (9,)) + gen.fam_dup_in_set(rng, n(tier, 40, 300)) + gen.fam_sizes(rng, tier) + gen.fam_boundaries(rng) + gen.fam_stream(rng, n(tier, 200, 2000), versions=(9,), calls=(1, 5)) + gen.fam_redefine(rng, n(tier, 40, 300)) + \
+    return fam_ss(rng, tier, (9,)) + [sc for sc in gen.fam_redefine_in_packet(rng, n(tier, 80, 600)) if '-9-' in sc[0]] + gen.fam_dup_in_set(rng, n(tier, 40, 300)) + gen.fam_sizes(rng, tier) + gen.fam_boundaries(rng) + gen.fam_stream(rng, n(tier, 200, 2000), versions=(9,), calls=(1, 5)) + gen.fam_redefine(rng, n(tier, 40, 300)) + \
         gen.fam_stream(rng, n(tier, 200, 2000), versions=(9,), calls=(1, 5), lossless=True) + \
         gen.fam_stream(rng, n(tier, 100, 800), versions=(9,), calls=(1, 4), lossless=True, wild=True) + \
         gen.fam_widths(rng, 9, sample=n(tier, 120, None)) + gen.fam_all_fields(rng, 9) + gen.fam_proto_values(rng, 9)
 
 
 def fam_ipfix(rng, tier):
-    return fam_ss(rng, tier, (10,)) + gen.fam_dup_in_set(rng, n(tier, 40, 300)) + gen.fam_sizes(rng, tier) + gen.fam_boundaries(rng) + gen.fam_stream(rng, n(tier, 200, 2000), versions=(10,), calls=(1, 5)) + gen.fam_redefine(rng, n(tier, 40, 300)) + \
+    return fam_ss(rng, tier, (10,)) + [sc for sc in gen.fam_redefine_in_packet(rng, n(tier, 80, 600)) if '-10-' in sc[0]] + gen.fam_dup_in_set(rng, n(tier, 40, 300)) + gen.fam_sizes(rng, tier) + gen.fam_boundaries(rng) + gen.fam_stream(rng, n(tier, 200, 2000), versions=(10,), calls=(1, 5)) + gen.fam_redefine(rng, n(tier, 40, 300)) + \
         gen.fam_stream(rng, n(tier, 300, 3000), versions=(10,), calls=(1, 5), lossless=True, simple_ipfix=True) + \
         gen.fam_stream(rng, n(tier, 100, 800), versions=(10,), calls=(1, 4), lossless=True, simple_ipfix=True, wild=True) + \
         gen.fam_widths(rng, 10, sample=n(tier, 150, None)) + gen.fam_all_fields(rng, 10) + gen.fam_proto_values(rng, 10) + gen.fam_rejected_template(rng, n(tier, 40, 300), want=["export"])
 
 
 def fam_cache(rng, tier):
-    return fam_ss(rng, tier) + gen.fam_dup_in_set(rng, n(tier, 80, 600)) + gen.fam_chain_many_templates(rng, n(tier, (1100,), (1025, 1100, 4100))) + gen.fam_boundaries(rng) + gen.fam_isolation(rng, n(tier, 60, 500)) + gen.fam_rejected_template(rng, n(tier, 60, 400)) + gen.fam_template_noise(rng, n(tier, 60, 400)) + gen.fam_redefine(rng, n(tier, 80, 600), lossless=True) + \
+    return fam_ss(rng, tier) + gen.fam_redefine_in_packet(rng, n(tier, 60, 400), lossless=True) + gen.fam_dup_in_set(rng, n(tier, 80, 600)) + gen.fam_chain_many_templates(rng, n(tier, (1100,), (1025, 1100, 4100))) + gen.fam_boundaries(rng) + gen.fam_isolation(rng, n(tier, 60, 500)) + gen.fam_rejected_template(rng, n(tier, 60, 400)) + gen.fam_template_noise(rng, n(tier, 60, 400)) + gen.fam_redefine(rng, n(tier, 80, 600), lossless=True) + \
         gen.fam_stream(rng, n(tier, 100, 800), simple_ipfix=True, lossless=True)
 
 
@@ -92,7 +92,7 @@ def fam_c14(rng, tier):
 
 
 def fam_c13(rng, tier):
-    return fam_ss(rng, tier) + gen.fam_common(rng, n(tier, 150, 1500)) + gen.fam_fixed(rng, n(tier, 40, 300)) + gen.fam_fixed_protocols(rng)
+    return fam_ss(rng, tier) + gen.fam_redefine_in_packet(rng, n(tier, 80, 600), want=('common',)) + gen.fam_common(rng, n(tier, 150, 1500)) + gen.fam_fixed(rng, n(tier, 40, 300)) + gen.fam_fixed_protocols(rng)
 
 
 STREAM_RULE = "conformant multi-call histories from the RFC-level generator (templates drawn from the library's type tables plus unknown types, supported widths, enterprise / variable-length / zero-length fields, 1-3 template records per set, options templates, paddings), encoded by the Lean specification writer Spec.enc"
